@@ -42,6 +42,7 @@ func runAttr(e *Engine, tier Tier, tag string) *PropRun {
 		}
 		return strings.HasPrefix(file, "pkg/sql/parser/") || strings.HasPrefix(file, "pkg/sql/tokenizer/") || strings.HasPrefix(file, "pkg/gosqlx/")
 	})
+	e.prepareExempt(tag, fns, opts)
 	rs := e.verifyAll(fns, opts, func(fr *Frame, q *Query) { a.constFacts(q) })
 	run := &PropRun{Results: rs, FUC: fucList(rs), Claim: func(o *Obligation) bool { return o.Kind == "post" || o.Kind == "pre" }}
 	run.Assumptions = []string{
